@@ -38,7 +38,8 @@ RULE = (
     "electric/magnetic dipole) and 2..3 detectors of all four kinds, reduced and unreduced, 10..24 steps; the spec is "
     "run with run_fdtd in three child processes with 1, 2 and 4 emulated host devices. Non-trivial = every child "
     "saw exactly its device count, E/H and the material arrays were laid out on all of them after placement, the "
-    "final fields are non-zero, and a source, box or detector straddles or touches an interior shard cut. "
+    "final fields are non-zero in at least two of the four x-slabs of the 4-device layout (the wave has crossed a shard "
+    "cut; whether a source, box or detector touches a cut is recorded as a class). "
     "Distinct = sha1 of the case JSON."
 )
 ASSUMPTIONS = [
@@ -117,6 +118,14 @@ def _open_interior(shape, faces):
     return out
 
 
+KINDS = ("uniform_plane", "gaussian_plane", "dipole_e", "dipole_m")
+
+
+def _rotated(seq, k):
+    k %= len(seq)
+    return tuple(seq[k:]) + tuple(seq[:k])
+
+
 def _fix_poynting_axis(d):
     if d["type"] == "poynting" and not d.get("keep_all"):
         thin = [a for a in range(3) if d["hi"][a] - d["lo"][a] == 1]
@@ -126,7 +135,10 @@ def _fix_poynting_axis(d):
 
 @st.composite
 def case_strategy(draw, ctx):
-    shape = list(draw(st.sampled_from(SHAPES)))
+    # Hypothesis' first example is the all-minimal one: rotate the menus per (seed, shard, lane) so that the workers
+    # of one run do not all spend an example on the same case
+    rot = int(getattr(ctx, "seed", 0)) * 7 + int(getattr(ctx, "shard", 0)) * 4 + (2 if getattr(ctx, "lane", "") == "f32" else 0)
+    shape = list(SHAPES[(draw(st.integers(0, len(SHAPES) - 1)) + rot) % len(SHAPES)])
     steps = draw(st.integers(10, 24))
     faces = draw(scenes.faces_strategy(kinds=("none", "pec", "pmc", "periodic", "pml", "pml"), pml_thickness=(2, 3)))
     _fit_pml(shape, faces, 4)
@@ -135,7 +147,7 @@ def case_strategy(draw, ctx):
 
     sources = []
     for i in range(draw(st.sampled_from([1, 2, 2]))):
-        s = draw(scenes.source_strategy(shape, steps, faces, name=f"src{i}", switches=False,
+        s = draw(scenes.source_strategy(shape, steps, faces, name=f"src{i}", switches=False, kinds=_rotated(KINDS, rot // 3 + i),
                                         interior=_open_interior(shape, faces)))
         s["switch"] = _window(draw, steps)
         sources.append(s)
@@ -454,7 +466,10 @@ def body(ctx, case):
     ctx.classify("object-at-shard-cut" if at_cut else "nothing-at-shard-cut")
     if max(_amax(ref["E"]), _amax(ref["H"])) == 0.0:
         raise Skip()
-    ctx.nontrivial(sharded and at_cut)
+    q = nx // 4
+    slabs = sum(1 for i in range(4) if max(_amax(ref["E"][:, i * q:(i + 1) * q]), _amax(ref["H"][:, i * q:(i + 1) * q])) > 0)
+    ctx.classify(f"field-in-{slabs}-of-4-shards")
+    ctx.nontrivial(sharded and slabs >= 2)
 
     # ---- compare -----------------------------------------------------------------------------------
     ftol = ctx.tol(1e-11, 1e-5)
